@@ -6,6 +6,7 @@ import (
 	"github.com/cloudwego/dynamicgo/internal/rt"
 	"github.com/cloudwego/dynamicgo/meta"
 	"github.com/cloudwego/dynamicgo/proto"
+	"github.com/cloudwego/dynamicgo/proto/binary"
 	"github.com/cloudwego/dynamicgo/proto/protowire"
 )
 
@@ -208,11 +209,11 @@ func (self Value) List(opts *Options) ([]interface{}, error) {
 	if self.IsError() {
 		return nil, self
 	}
-	return self.list(opts)
+	return self.list(opts, 0)
 }
 
 // List returns interface elements contained by a LIST node
-func (self Value) list(opts *Options) ([]interface{}, error) {
+func (self Value) list(opts *Options, depth int) ([]interface{}, error) {
 	if self.IsError() {
 		return nil, self
 	}
@@ -245,7 +246,7 @@ func (self Value) list(opts *Options) ([]interface{}, error) {
 		}
 
 		v := wrapValue(self.slice(s, e, self.et), self.Desc.Elem())
-		vv, err := v.Interface(opts)
+		vv, err := v.interfaceAt(opts, depth)
 		if err != nil {
 			return ret, err
 		}
@@ -262,11 +263,11 @@ func (self Value) IntMap(opts *Options) (map[int]interface{}, error) {
 	if self.IsError() {
 		return nil, self
 	}
-	return self.intMap(opts)
+	return self.intMap(opts, 0)
 }
 
 // StrMap returns the integer keys and interface elements contained by a MAP<Int/Uint,XX> node
-func (self Value) intMap(opts *Options) (map[int]interface{}, error) {
+func (self Value) intMap(opts *Options, depth int) (map[int]interface{}, error) {
 	if self.IsError() {
 		return nil, self
 	}
@@ -288,7 +289,7 @@ func (self Value) intMap(opts *Options) (map[int]interface{}, error) {
 			return nil, it.Err
 		}
 		v := self.sliceWithDesc(s, e, valueDesc)
-		vv, err := v.Interface(opts)
+		vv, err := v.interfaceAt(opts, depth)
 		if err != nil {
 			return ret, err
 		}
@@ -301,11 +302,11 @@ func (self Value) StrMap(opts *Options) (map[string]interface{}, error) {
 	if self.IsError() {
 		return nil, self
 	}
-	return self.strMap(opts)
+	return self.strMap(opts, 0)
 }
 
 // StrMap returns the string keys and interface elements contained by a MAP<STRING,XX> node
-func (self Value) strMap(opts *Options) (map[string]interface{}, error) {
+func (self Value) strMap(opts *Options, depth int) (map[string]interface{}, error) {
 	if self.IsError() {
 		return nil, self
 	}
@@ -327,7 +328,7 @@ func (self Value) strMap(opts *Options) (map[string]interface{}, error) {
 			return nil, it.Err
 		}
 		v := self.sliceWithDesc(s, e, valueDesc)
-		vv, err := v.Interface(opts)
+		vv, err := v.interfaceAt(opts, depth)
 		if err != nil {
 			return ret, err
 		}
@@ -340,6 +341,11 @@ func (self Value) strMap(opts *Options) (map[string]interface{}, error) {
 // If the node is a MESSAGE, it will return map[proto.FieldNumber]interface{} or map[int]interface{}.
 // If it is a map, it will return map[int|string]interface{}, which depends on the key type
 func (self Value) Interface(opts *Options) (interface{}, error) {
+	return self.interfaceAt(opts, 0)
+}
+
+// depth is the number of messages this value is nested in
+func (self Value) interfaceAt(opts *Options, depth int) (interface{}, error) {
 	switch self.t {
 	case proto.ERROR:
 		return nil, self
@@ -361,16 +367,20 @@ func (self Value) Interface(opts *Options) (interface{}, error) {
 	case proto.ENUM:
 		return self.enum()
 	case proto.LIST:
-		return self.List(opts)
+		return self.list(opts, depth)
 	case proto.MAP:
 		if kt := self.kt; kt == proto.STRING {
-			return self.StrMap(opts)
+			return self.strMap(opts, depth)
 		} else if kt.IsInt() {
-			return self.IntMap(opts)
+			return self.intMap(opts, depth)
 		} else {
 			return 0, errValue(meta.ErrUnsupportedType, "Value.Interface: not support other Mapkey type", nil)
 		}
 	case proto.MESSAGE:
+		// one level of recursion per nested message: unlimited nesting overflows the stack
+		if depth >= binary.MaxDepth {
+			return nil, errValue(meta.ErrStackOverflow, "", nil)
+		}
 		it := self.iterFields()
 		msg := self.Desc.Message()
 		if !self.IsRoot {
@@ -411,7 +421,7 @@ func (self Value) Interface(opts *Options) (interface{}, error) {
 			}
 
 			v := self.sliceWithDesc(s, e, typDesc)
-			vv, err := v.Interface(opts)
+			vv, err := v.interfaceAt(opts, depth+1)
 			if err != nil {
 				return nil, err
 			}
